@@ -41,7 +41,7 @@ func (r *Result) SubStreams() []string {
 				case "gochannel.sub.close.locked":
 					toks = append(toks, "K")
 				}
-			case "rv":
+			case "rv", "dr":
 				if e.F[0] == s {
 					toks = append(toks, "R")
 				}
